@@ -4,7 +4,7 @@ from fractions import Fraction as F
 from ..common import run_driver, seed_rng
 from ..qnum import installed
 from ..sllib import TIME_LATTICE, Fixture, random_space_intervals, result_str
-from ..slchecks import RealOps, describe, dummy_children, ok_aspect, random_real_mesh
+from ..slchecks import RealOps, describe, dummy_children, ok_aspect, random_real_mesh, seam_and_corner_pairs
 from .C04 import translate  # noqa: F401
 
 PROP_MODS = ['Stbem.Props.C11']
@@ -94,10 +94,14 @@ def search(res, tier, boost=False):
         elems = [e for e in mesh.leaf_elements if ok_aspect(e, 16)]
         if not elems:
             continue
-        for _ in range(n_pairs):
-            te, tr = rng.choice(elems), rng.choice(elems)
-            if rng.random() < 0.3:
-                tr = te
+        special = [(a, b) for a, b, _ in seam_and_corner_pairs(rng, gamma, n_pairs) if ok_aspect(a, 8) and ok_aspect(b, 8)]
+        for it in range(n_pairs + len(special)):
+            if it < n_pairs:
+                te, tr = rng.choice(elems), rng.choice(elems)
+                if rng.random() < 0.3:
+                    tr = te
+            else:
+                te, tr = special[it - n_pairs]
             if te.time_interval[1] <= tr.time_interval[0]:
                 continue
             sc = ops.scale(te, tr)
